@@ -9,16 +9,17 @@ def _norm(v):
     if v is None:
         return None
     if isinstance(v, tuple):
-        if all(x is None for x in v):
+        t = tuple(_norm1(x) for x in v)
+        if all(x is None for x in t):
             return None
-        return tuple(_norm1(x) for x in v)
+        return t
     return _norm1(v)
 
 
 def _norm1(x):
     if isinstance(x, float):
         return round(x, 5) if math.isfinite(x) else str(x)
-    if x == ".":
+    if x == "." or (isinstance(x, str) and x.strip("\x00") == ""):
         return None
     return x
 
